@@ -104,7 +104,7 @@ type Interp struct {
 	inputWrites map[string]bool
 	// pathFail and pathOK count the path-mode attempts per function in this
 	// query; a function that never got through is not tried again and again.
-	pathFail, pathOK map[*ssa.Function]int
+	pathFail, pathOK map[[2]*ssa.Function]int
 	// pendingFree hands the captured values of a closure to its activation;
 	// curFree holds them while that activation's frames are created.
 	pendingFree []Val
@@ -123,7 +123,7 @@ type Interp struct {
 func NewInterp(p *Prog) *Interp {
 	return &Interp{Prog: p, PathBind: map[string]Val{}, InitBind: map[string]Val{}, MapKeys: map[string][]Val{}, maxSteps: 400000,
 		Sizes: types.SizesFor("gc", "amd64"), ReachedAny: map[ssa.Instruction]bool{},
-		NoPath: os.Getenv("SC_NOPATH") != "", pathFail: map[*ssa.Function]int{}, pathOK: map[*ssa.Function]int{}}
+		NoPath: os.Getenv("SC_NOPATH") != "", pathFail: map[[2]*ssa.Function]int{}, pathOK: map[[2]*ssa.Function]int{}}
 }
 
 // ---------------------------------------------------------------------------
@@ -535,13 +535,19 @@ func (in *Interp) run(fn *ssa.Function, args []Val, start *ssa.BasicBlock, outer
 	}
 	var fr *frame
 	done := false
-	if !region && !in.NoPath && hasLoop(fn) && !(in.pathFail[fn] >= 2 && in.pathOK[fn] == 0) {
+	// (counted per caller: a helper that cannot be followed for one caller's
+	// unknown argument may well be followed for another's known one)
+	pk := [2]*ssa.Function{fn, nil}
+	if len(in.stack) >= 2 {
+		pk[1] = in.stack[len(in.stack)-2]
+	}
+	if !region && !in.NoPath && hasLoop(fn) && !(in.pathFail[pk] >= 2 && in.pathOK[pk] == 0) {
 		in.curFree = free
 		fr = in.newFrame(fn, args, start, outer, entry, ctx)
 		if !fr.execPath() {
-			in.pathFail[fn]++
+			in.pathFail[pk]++
 		} else {
-			in.pathOK[fn]++
+			in.pathOK[pk]++
 			done = true
 			if observing {
 				in.curFree = free
